@@ -52,6 +52,11 @@ fn main() {
             let tier = if let Some(t) = args.get(3) { Tier::parse(t) } else { tier };
             supervisor::run_check(&prop, tier, seed_from_env())
         }
+        Some("selfcheck") => {
+            let runs: u64 = args.get(2).and_then(|s| s.parse().ok()).unwrap_or(2000);
+            let props: Vec<String> = if args.len() > 3 { args[3..].to_vec() } else { scenario::CLAIMED.iter().map(|s| (*s).to_string()).collect() };
+            supervisor::run_selfcheck(&props, runs, seed_from_env())
+        }
         Some("replay") => supervisor::run_replay(args.get(2).map(String::as_str).unwrap_or("")),
         Some("gen") => {
             // print the trace of one run (debugging aid)
@@ -71,7 +76,7 @@ fn main() {
                     guard::install_panic_hook();
                     worker::warm_up();
                     let o = scenario::execute(&t);
-                    println!("{}", serde_json::to_string_pretty(&o).unwrap());
+                    println!("OUTCOME {}", serde_json::to_string(&o).unwrap());
                     i32::from(o.violation.is_some())
                 }
                 Err(e) => {
